@@ -123,6 +123,39 @@ where
     }
 }
 
+/// Read-only accessors used by the external verification harness (`--cfg crux_verif`).
+#[cfg(crux_verif)]
+impl<A> Bridge<A>
+where
+    A: App,
+{
+    /// (id, kind) of every entry of the resolve registry
+    pub fn verif_registry(&self) -> Vec<(u32, &'static str)> {
+        self.inner.verif_registry()
+    }
+
+    /// see [`Core::verif_stats`]
+    pub fn verif_stats(&self) -> (usize, usize, usize, usize, usize) {
+        self.inner.verif_stats()
+    }
+}
+
+#[cfg(crux_verif)]
+impl<A> BridgeWithSerializer<A>
+where
+    A: App,
+{
+    /// (id, kind) of every entry of the resolve registry
+    pub fn verif_registry(&self) -> Vec<(u32, &'static str)> {
+        self.registry.verif_entries()
+    }
+
+    /// see [`Core::verif_stats`]
+    pub fn verif_stats(&self) -> (usize, usize, usize, usize, usize) {
+        self.core.verif_stats()
+    }
+}
+
 /// A bridge with a user supplied serializer
 ///
 /// This is exactly the same as [`Bridge`], except instead of using the default
